@@ -4,11 +4,14 @@
    A document is an abstract list of statements whose subject / object /
    graph name is a constant or a blank-node LABEL.  A parse call
 
-     (a) for the N-Quads and HexTuples parsers first executes
-         [ds.remove_graph(<urn:x-rdflib:default>)] on the sink's store
+     (a) for the N-Quads and HexTuples parsers first forgets the graph
+         <urn:x-rdflib:default> of the sink's store when it holds NO triple
          (nquads.py NQuadsParser.parse, hext.py HextuplesParser.parse:
-         "remove the original unused default graph"),
-     (b) then adds the statements one by one ([Graph.add]), each label going
+         [if len(ds_default) == 0: ds.remove_graph(ds_default)], as repaired by
+         the "fix:" commit 57c67bab) - no quad is touched, so this step does
+         not appear in the quad-level model; the behaviour before the repair
+         (unconditional remove_graph) is kept as [parse_call_prefix],
+     (b) adds the statements one by one ([Graph.add]), each label going
          through the parser's label environment:
            Fresh     a dict label -> BNode created empty for the call, a miss
                      allocates [BNode()] (uuid4) / [BNode("n<uuid>b<k>")]
@@ -53,6 +56,7 @@ Inductive disc := Fresh | Identity.
 (* read off the parsers (see the header); the correspondence check re-establishes it on every run *)
 Definition disc_of (f : fmt) : disc :=
   match f with TRIX | JLD | HEXT => Identity | _ => Fresh end.
+(* the parsers that, before commit 57c67bab, emptied <urn:x-rdflib:default> (historical) *)
 Definition wipes (f : fmt) : bool :=
   match f with NQ | HEXT => true | _ => false end.
 
@@ -99,6 +103,11 @@ Fixpoint add_stmts (fresh : N -> N) (d : disc) (tgt : cid) (e : env) (st : qset)
 Definition wipe_default (st : qset) : qset := q_remove (None, None, None) (Some DS_DEFAULT) st.
 
 Definition parse_call (fresh : N -> N) (st : qset) (dc : doc) : qset :=
+  add_stmts fresh (disc_of (d_fmt dc)) (d_target dc) [] st (d_stmts dc).
+
+(* the code as it was before the "fix:" commit for finding F12, kept so that the refutation
+   of "parsing only adds" on the historical code stays checkable *)
+Definition parse_call_prefix (fresh : N -> N) (st : qset) (dc : doc) : qset :=
   let st0 := if wipes (d_fmt dc) then wipe_default st else st in
   add_stmts fresh (disc_of (d_fmt dc)) (d_target dc) [] st0 (d_stmts dc).
 
@@ -209,17 +218,16 @@ Definition wfb (c : case) : bool := forallb quad_small (c_init c) && docs_ok 0 (
 Definition wf (c : case) : Prop := wfb c = true.
 
 (* ------------------------------------------------------------------ *)
-(* Known findings: trigger predicates, evaluated along the model's run.
-     2 (F12)  an N-Quads / HexTuples call while <urn:x-rdflib:default> holds triples
+(* Known findings: trigger predicate, evaluated along the model's run.
      1 (F9)   a TriX / JSON-LD / HexTuples call one of whose labels is the id of a
-              blank node already in the store *)
+              blank node already in the store
+   (trigger 2, F12 - N-Quads / HexTuples emptied <urn:x-rdflib:default> - is FIXED) *)
 Definition kf_step (st : qset) (d : doc) : N :=
-  if wipes (d_fmt d) && existsb (fun q => N.eqb (q_g q) DS_DEFAULT) st then 2
-  else match disc_of (d_fmt d) with
-       | Identity =>
-           if existsb (fun l => occurs_in (lab_node l) st) (labels_of (d_stmts d)) then 1 else 0
-       | Fresh => 0
-       end.
+  match disc_of (d_fmt d) with
+  | Identity =>
+      if existsb (fun l => occurs_in (lab_node l) st) (labels_of (d_stmts d)) then 1 else 0
+  | Fresh => 0
+  end.
 
 Fixpoint kf_run (fresh : N -> N -> N) (j : N) (st : qset) (ds : list doc) : N :=
   match ds with
